@@ -40,6 +40,8 @@ enum Op {
     Update,
     /// UpdatePeer API re-declaring the configuration in force (nothing to tear down)
     UpdateSame,
+    /// UpdatePeerGroup API re-declaring group `i` with the parameters it has
+    UpdateGroup(usize),
 }
 
 fn rname(r: crate::fsm::Role) -> &'static str {
@@ -60,6 +62,7 @@ fn op_name(o: &Op) -> String {
         Op::Reset => "hard_reset(static)".into(),
         Op::Update => "update_peer(static, other hold time)".into(),
         Op::UpdateSame => "update_peer(static, same parameters)".into(),
+        Op::UpdateGroup(i) => format!("update_peer_group(group {i}, same parameters)"),
     }
 }
 
@@ -373,6 +376,27 @@ impl Model for AcceptModel {
                     sys.peers.remove(a);
                 }
             }
+            Op::UpdateGroup(gi) => {
+                let Some(gc) = self.cfg.groups.get(*gi).cloned() else { return false };
+                let d = &sys.d;
+                let res: Result<(), String> = sys.rt.block_on(async {
+                    use api::go_bgp_service_server::GoBgpService;
+                    let svc = super::super::grpc::GrpcService::new(Arc::new(tokio::sync::Notify::new()), d.active_tx.clone(), d.global.clone(), d.tables.clone());
+                    let pg = api::PeerGroup {
+                        conf: Some(api::PeerGroupConf { peer_group_name: gc.name.to_string(), peer_asn: gc.as_number, local_asn: gc.local_asn, ..Default::default() }),
+                        route_server: Some(api::RouteServer { route_server_client: gc.rs_client, ..Default::default() }),
+                        route_reflector: Some(api::RouteReflector { route_reflector_client: gc.rr_client, ..Default::default() }),
+                        timers: gc.holdtime.map(|h| api::Timers { config: Some(api::TimersConfig { hold_time: h, ..Default::default() }), ..Default::default() }),
+                        transport: Some(api::Transport { passive_mode: true, ..Default::default() }),
+                        ..Default::default()
+                    };
+                    svc.update_peer_group(tonic::Request::new(api::UpdatePeerGroupRequest { peer_group: Some(pg), ..Default::default() })).await.map(|_| ()).map_err(|e| e.to_string())
+                });
+                if let Err(e) = res {
+                    cur.push(("C16/admin-api-refused/update_peer_group".into(), format!("{}: the API call failed: {e}", op_name(o))));
+                }
+                // nothing about who may connect has changed: checked by the following connects
+            }
             Op::BadOpen(role, a) => {
                 let key = (rk(*role), *a);
                 let Some(mut l) = sys.live.remove(&key) else { return false };
@@ -583,6 +607,10 @@ impl Model for AcceptModel {
                 })
                 .collect();
             v.sort();
+            // the peer groups as the daemon holds them (an API call may change what the harness does not mirror)
+            let mut gs: Vec<String> = g.peer_group.iter().map(|(n, pg)| format!("group {n}:{}:{:?}:{}:{}", pg.as_number, pg.holdtime, pg.route_server_client, pg.dynamic_peers.iter().map(|d| d.prefix.to_string()).collect::<Vec<_>>().join(","))).collect();
+            gs.sort();
+            v.extend(gs);
             v
         });
         format!("{:?}|{:?}|{:?}|{}|{:?}|{}|{}", sys.peers, sys.live.keys().collect::<Vec<_>>(), sys.broken, sys.dead, real, sys.static_hold, sys.static_limits).into_bytes()
@@ -619,7 +647,7 @@ fn accept_models() -> Vec<AcceptModel> {
             v.push(Op::BadOpen(r, 0));
             v.push(Op::BadOpen(r, 1));
         }
-        v.extend([Op::Disable, Op::Enable, Op::Delete, Op::Reset, Op::Update, Op::UpdateSame]);
+        v.extend([Op::Disable, Op::Enable, Op::Delete, Op::Reset, Op::Update, Op::UpdateSame, Op::UpdateGroup(0)]);
         v
     };
     let g = |name: &'static str, prefix: &'static str, as_number: u32, local_asn: u32, rs: bool, rr: bool, hold: Option<u64>, gr: bool| GroupCfg { name, prefix, as_number, local_asn, rs_client: rs, rr_client: rr, holdtime: hold, gr };
@@ -1034,7 +1062,7 @@ pub(crate) fn run(replay: Option<&str>) -> Report {
     let depth = if thorough { 12 } else { 6 };
     rep.rule = format!("(i) explicit-state BFS depth {depth} over connect(passive|active, static|in-dynamic-prefix|other address) / disconnect / enable / disable / delete against the real accept_connection + session tasks on loopback (4 configurations: static only with prefix limit; admin-down static + route-server dynamic group with GR and hold time; overlapping dynamic prefixes + RR client group + confederation; iBGP static neighbour + RR-client group inside a confederation whose member list names the local member AS); admission verdict, no bytes before refusal, role / hold time / local AS / capabilities / limits of the session as seen in its OPEN, Global.peers and connection slots after every step; (ii) all pairs of capability lists from a {} -element menu (per-family absent / MP / add-path modes incl. invalid 4, conflicting duplicate add-path entries, an add-path entry for a family without Multiprotocol capability, three capability orders incl. ADD-PATH before MP and repeated MP, AS4, extended message, GR flag/family lists, LLGR lists, unknown capability) through encode->decode and PeerCodec::negotiate in both directions, PeerFsm effective send-max, PeerSession::negotiate_gr/llgr (codec/FSM lists and GR/LLGR lists as two independent complete products); non-trivial = distinct canonical state / distinct pair", sides(thorough).len() + gr_sides(thorough).len());
     for m in &ms {
-        let cfg = BfsCfg { max_depth: depth, max_secs: if thorough { 1200 } else { 20 }, ..Default::default() };
+        let cfg = BfsCfg { max_depth: depth, max_secs: if thorough { 1200 } else { 90 }, ..Default::default() };
         bfs::bfs(m, &cfg, &mut rep);
         if let Some(e) = take_machinery() {
             rep.machinery_error = Some(e);
